@@ -58,11 +58,13 @@ void Exec::op_solve(Client &c) {
 	world.cur_model = &o->m;
 	std::string life_before = o->life;
 	if (how == "exact") QSexact_set_precision(cur_precision);   // the start precision is a per-call knob of the plan, not a leftover of earlier solves
-	int it_before = 0, it_after = 0, it_limit = 0; mpq_QSget_itcnt(o->p, 0, 0, 0, 0, &it_before); mpq_QSget_param(o->p, QS_PARAM_SIMPLEX_MAX_ITERATIONS, &it_limit);
+	int it_before = 0, it_after = 0, it_limit = 0; int ph0[4] = {0, 0, 0, 0}, ph1[4] = {0, 0, 0, 0}; mpq_QSget_itcnt(o->p, &ph0[0], &ph0[1], &ph0[2], &ph0[3], &it_before); mpq_QSget_param(o->p, QS_PARAM_SIMPLEX_MAX_ITERATIONS, &it_limit);
 	SolveOut so = raw_solve(o->p, how, algo, wantx, wanty, warm, wantb);
-	mpq_QSget_itcnt(o->p, 0, 0, 0, 0, &it_after);
+	mpq_QSget_itcnt(o->p, &ph1[0], &ph1[1], &ph1[2], &ph1[3], &it_after);
 	// ITER_LIMIT although the simplex made far fewer pivots than the limit allows: it gave up (restart cap, "excess infeasibility")
 	std::string nd_suffix = (how != "exact" && so.rv == 0 && so.status == QS_LP_ITER_LIMIT && it_after - it_before < it_limit / 2) ? ":gave-up-early" : "";
+	// ... or it really used the pivots up: say in which phase they went (a run that stalls in one phase makes no progress there)
+	if (nd_suffix.empty() && how != "exact" && so.rv == 0 && so.status == QS_LP_ITER_LIMIT) { static const char *pn[4] = {"pI", "pII", "dI", "dII"}; int best = 0; for (int k = 1; k < 4; k++) if (ph1[k] - ph0[k] > ph1[best] - ph0[best]) best = k; nd_suffix = std::string(":stalled-") + pn[best]; }
 	world.cur_model = 0; world.limit_at_read = -1; world.cancel_at = -1;
 	if (world.ladder_cut_in_op) { interrupted = true; probe("ladder.cut"); }   // the top rungs ran out of simulated time: judged like any other limit
 	if (iter_set) mpq_QSset_param(o->p, QS_PARAM_SIMPLEX_MAX_ITERATIONS, saved_iter);
